@@ -769,6 +769,14 @@ func scenarioF12(c *Ctx, tooBig bool, managed bool) (*xhist, bool, error) {
 		x.xblock(false)
 	}
 	if code != 7 && code != 8 {
+		if tooBig && code == 0 {
+			// finding F4 is repaired on this tree: the exact-limit transaction now commits, so the
+			// ErrTxnTooBig route into F12 is closed (the ErrBlockedWrites route still witnesses F12)
+			c.Count("f12-toobig-route-closed-by-F4-fix")
+			x.xdiscard(1)
+			x.serialCheck()
+			return x, false, nil
+		}
 		return x, false, fmt.Errorf("F12 scenario: the commit was not refused (code %d)", code)
 	}
 	x.xset(1, []byte("x"), []byte("y"))
